@@ -41,7 +41,7 @@ def generate(rng, tier, idx):
     w['ext_n'] = 40
     nf = rng.randint(2, min(5, w['n_wav']))
     sc = {'world': w, 'nf': nf, 'idx_seed': rng.randrange(1 << 30), 'theta_seed': rng.randrange(1 << 30), 'fit_memmap': rng.random() < 0.5,
-          'av_range': [0.0, round(rng.uniform(2, 15), 2)], 'source_seed': rng.randrange(1 << 30),
+          'av_range': [rng.choice([0.0, 0.0, -3.0, -0.5, 1.0]), round(rng.uniform(2, 15), 2)], 'source_seed': rng.randrange(1 << 30),
           'dmin': float('%.4g' % (10 ** rng.uniform(-1, 0.3))), 'dspan': float('%.4g' % (10 ** rng.uniform(0, 0.3))),
           'n_theta': rng.randint(2, 3),
           # the unit in which the user gives the monochromatic wavelengths (any length unit is legal)
